@@ -32,7 +32,19 @@ var descPool = []string{"plain words", "Two  spaces", "ends with dot.", "x", "UP
 var HostileText = []string{
 	"a \"quoted\" word", "back\\slash", "line one\nline two", "triple \"\"\" inside", "ends with quote\"", "\"starts with quote", "ends with backslash\\",
 	"unicode é ü 😀 ℵ", "tab\there", "  leading blanks", "trailing blanks  ", "\\n literal backslash-n", "a\n\nb (blank line)", "# not a comment",
-	"\\\"", "\"\"", "\"\"\"\"", "five \"\"\"\"\" quotes", "\"\\", "q\"\\x", "\\\\", "mixed \"q\" and \\ and \n newline", "\\u0041", "€uro", "ctl \x01 char", "\r\ncrlf",
+	"\\\"", "\"\"", "\"\"\"\"", "five \"\"\"\"\" quotes", "\"\\", "q\"\\x", "\\\\", "quotes \"\"\" and ünï 😀 code", "é\"\"\"\"", "mixed \"q\" and \\ and \n newline", "\\u0041", "€uro", "ctl \x01 char", "\r\ncrlf",
+}
+
+// hostileAtoms are glued together into descriptions and string values nobody wrote by hand.
+var hostileAtoms = []string{"\"", "\"\"", "\"\"\"", "\"\"\"\"", "\\", "\\\\", "\n", " ", "é", "😀", "a", "word", "#", "\t", "\r\n", "\\n", "\\u0041", "\x01", "ß", "\\\"", "{", "}", "@", "$"}
+
+func composeHostile(t *rapid.T, label string) string {
+	n := rapid.IntRange(2, 5).Draw(t, label+"n")
+	var b strings.Builder
+	for i := 0; i < n; i++ {
+		b.WriteString(rapid.SampledFrom(hostileAtoms).Draw(t, fmt.Sprintf("%s%d", label, i)))
+	}
+	return b.String()
 }
 
 type gen struct {
@@ -49,6 +61,11 @@ func (g *gen) desc(label string) string {
 		return ""
 	}
 	if g.o.HostileTxt && rapid.Bool().Draw(g.t, label+"hostile") {
+		if rapid.IntRange(0, 2).Draw(g.t, label+"composed") == 0 {
+			if d := strings.TrimSpace(composeHostile(g.t, label+"hc")); d != "" {
+				return d
+			}
+		}
 		return rapid.SampledFrom(HostileText).Draw(g.t, label+"hd")
 	}
 	return rapid.SampledFrom(descPool).Draw(g.t, label+"d")
@@ -143,6 +160,9 @@ func (g *gen) Literal(tr *hx.TRef, label string, depth int) hx.Val {
 
 func (g *gen) text(label string) string {
 	if g.o.HostileTxt && rapid.Bool().Draw(g.t, label+"hostile") {
+		if rapid.IntRange(0, 2).Draw(g.t, label+"composed") == 0 {
+			return composeHostile(g.t, label+"hc")
+		}
 		return rapid.SampledFrom(HostileText).Draw(g.t, label+"h")
 	}
 	return rapid.SampledFrom([]string{"", "a", "some text", "RED", "12"}).Draw(g.t, label)
@@ -257,7 +277,8 @@ func GenFull(t *rapid.T, o Opts) *hx.Schema {
 			mutName = "RootM"
 		}
 		if extended {
-			mutName = "ExtM"
+			// (also names that differ from the conventional one in letter case only)
+			mutName = rapid.SampledFrom([]string{"ExtM", "ExtM", "MUTATION", "mutation"}).Draw(t, "extMutName")
 		}
 	}
 	if rapid.IntRange(0, 3).Draw(t, "hasSubscription") == 0 {
@@ -266,7 +287,7 @@ func GenFull(t *rapid.T, o Opts) *hx.Schema {
 			subName = "RootS"
 		}
 		if extended {
-			subName = "ExtS"
+			subName = rapid.SampledFrom([]string{"ExtS", "ExtS", "SUBSCRIPTION", "subscription"}).Draw(t, "extSubName")
 		}
 	}
 	roots := []string{queryName}
